@@ -18,8 +18,8 @@ E18 = tuple((s, d, l) for s in (0, 1, 2) for d in (0, 1, 2) for l in (0, 1))
 PASSIVE = ((0, 1), (1, 0), (2, 0), (0, 2), (1, 1), (3, 0), (0, 3), (2, 1))
 
 BOUNDS = {
-    "quick": {"configs": [{"alphabet": "E4", "K": 3, "shaped": True}], "backends": list(S.BACKENDS), "passive_bucket_events": len(PASSIVE)},
-    "thorough": {"configs": [{"alphabet": "E6", "K": 3, "shaped": True}, {"alphabet": "E6", "K": 4, "shaped": False}, {"alphabet": "E18", "K": 3, "shaped": False}], "backends": list(S.BACKENDS), "passive_bucket_events": len(PASSIVE)},
+    "quick": {"configs": [{"alphabet": "E4", "K": 3, "shaped": True}, {"alphabet": "E4", "K": 2, "shaped": False, "unit_us": 1000}], "backends": list(S.BACKENDS), "passive_bucket_events": len(PASSIVE)},
+    "thorough": {"configs": [{"alphabet": "E6", "K": 3, "shaped": True}, {"alphabet": "E6", "K": 3, "shaped": False, "unit_us": 1000}, {"alphabet": "E6", "K": 4, "shaped": False}, {"alphabet": "E18", "K": 3, "shaped": False}], "backends": list(S.BACKENDS), "passive_bucket_events": len(PASSIVE)},
 }
 RULE = (
     "BFS to fixpoint over all histories of {insert, bulk insert pair, bulk upsert, mixed bulk, replace(id), replace_last, delete(id), delete(never-existed)} "
@@ -156,10 +156,11 @@ def run(ctx):
     per = {}
     for cfg in cfgs:
         E = _emb_ev({"E4": E4, "E6": E6, "E18": E18}[cfg["alphabet"]])
+        _G["emb"] = Emb(ctx.base, cfg.get("unit_us", 1_000_000))  # 1 ms: several events inside one calendar second
         for backend in S.BACKENDS:
             _G["cfg"] = {"backend": backend, "E": E, "K": cfg["K"], "shaped": cfg.get("shaped", False)}
             agg, seen = _bfs(ctx, f"{backend}/{cfg['alphabet']}/K{cfg['K']}")
-            per[f"{backend}/{cfg['alphabet']}/K{cfg['K']}"] = {"states": agg.states, "transitions": agg.transitions, "max_depth": agg.max_depth, "violating_transitions": sum(v.get("count", 1) for v in agg.violations)}
+            per[f"{backend}/{cfg['alphabet']}/K{cfg['K']}/{cfg.get('unit_us', 1000000)}us"] = {"states": agg.states, "transitions": agg.transitions, "max_depth": agg.max_depth, "violating_transitions": sum(v.get("count", 1) for v in agg.violations)}
             _merge(total, agg)
     total.extra["per_backend"] = per
     for need in ("pre_end_tie", "pre_start_tie", "pre_zero_length", "addresses_older_id", "repl_max_end_tie", "repl_newest_start_tie", "op_repl", "op_del", "op_ups"):
